@@ -83,6 +83,22 @@ impl Tx {
   }
 }
 
+impl Tx {
+  fn send_woken_drop(&mut self, id: u64) -> Res {
+    match self {
+      Tx::S(_) => panic!("op sw needs an async handle"),
+      Tx::A(t) => {
+        let mut fut = std::pin::pin!(t.send(id));
+        match poll_wait_woken(fut.as_mut()) {
+          Some(Ok(())) => Res::SendOk(id),
+          Some(Err(_)) => Res::SendClosedDropped(id),
+          None => Res::SendCancelled(id),
+        }
+      }
+    }
+  }
+}
+
 impl Rx {
   fn recv(&mut self) -> Res {
     match self {
@@ -123,6 +139,18 @@ impl Rx {
             sched::yield_point();
             Res::Cancelled
           }
+        }
+      }
+    }
+  }
+  fn recv_woken_drop(&mut self) -> Res {
+    match self {
+      Rx::S(_) => panic!("op rw needs an async handle"),
+      Rx::A(r) => {
+        let mut fut = std::pin::pin!(r.recv());
+        match poll_wait_woken(fut.as_mut()) {
+          Some(r) => recv_res(r),
+          None => Res::Cancelled,
         }
       }
     }
@@ -197,6 +225,10 @@ pub fn run_once(sc: &Scenario, policy: Policy, record: bool) -> OneRun {
               seq += 1;
               stamp(&mut out, || tx.send_cancel(seq));
             }
+            "sw" => {
+              seq += 1;
+              stamp(&mut out, || tx.send_woken_drop(seq));
+            }
             "y" => std::thread::yield_now(),
             o => panic!("bad producer op {o}"),
           }
@@ -221,6 +253,7 @@ pub fn run_once(sc: &Scenario, policy: Policy, record: bool) -> OneRun {
             "rt" => stamp(&mut out, || h.recv_timeout()),
             "rc" => stamp(&mut out, || h.recv_cancel()),
             "rp" => stamp(&mut out, || h.recv_repoll()),
+            "rw" => stamp(&mut out, || h.recv_woken_drop()),
             "D" => loop {
               stamp(&mut out, || h.recv());
               results.lock().unwrap()[ti] = out.clone();
